@@ -145,7 +145,7 @@ fn parse_overlay(src: &str, fname: &str) -> (String, Vec<Dir>) {
                             "table" => {
                                 cur = Some(Section { kind, ord: 0, snippet, arg: String::new(), text: String::new(), line: i + 2 });
                             }
-                            "sig" | "entry" | "exit" | "fields" => {
+                            "sig" | "entry" | "exit" | "fields" | "attr" => {
                                 cur = Some(Section { kind, ord: 0, snippet, arg: String::new(), text: String::new(), line: i + 2 });
                             }
                             "before" | "after" | "inv" | "body-begin" | "body-end" | "closure" => {
@@ -691,6 +691,39 @@ fn raw_ident_edits(ts: TokenStream, rules: &Rules, edits: &mut Vec<Edit>, seq: &
     }
 }
 
+fn replace_word(text: &str, from: &str, to: &str) -> String {
+    let b = text.as_bytes();
+    let mut out = String::new();
+    let mut i = 0;
+    let isid = |c: u8| c.is_ascii_alphanumeric() || c == b'_';
+    while i < b.len() {
+        if text[i..].starts_with(from) && (i == 0 || !isid(b[i - 1])) && (i + from.len() >= b.len() || !isid(b[i + from.len()])) {
+            out.push_str(to);
+            i += from.len();
+        } else {
+            let ch = text[i..].chars().next().unwrap();
+            out.push(ch);
+            i += ch.len_utf8();
+        }
+    }
+    out
+}
+
+fn self_tokens(ts: TokenStream, out: &mut Vec<(usize, usize)>) {
+    for tt in ts {
+        match tt {
+            TokenTree::Group(g) => self_tokens(g.stream(), out),
+            TokenTree::Ident(i) => {
+                if i == "self" {
+                    let r = i.span().byte_range();
+                    out.push((r.start, r.end));
+                }
+            }
+            _ => {}
+        }
+    }
+}
+
 fn attr_edits(attrs: &[syn::Attribute], rules: &Rules, src: &str, edits: &mut Vec<Edit>, seq: &mut usize) {
     for a in attrs {
         let name = a.path().segments.last().map(|s| s.ident.to_string()).unwrap_or_default();
@@ -1011,6 +1044,29 @@ fn main() {
                 let stmts = std::mem::take(&mut scan.stmts);
                 let closures = std::mem::take(&mut scan.closures);
                 let mut seq = 0usize;
+                // R12: `mut self` receiver (unsupported by Verus) -> `self` + `let mut this = self;`, `self` -> `this` in the body
+                let mut_self = matches!(sig.receiver(), Some(r) if r.reference.is_none() && r.mutability.is_some());
+                if mut_self && !fd.trusted {
+                    let r = sig.receiver().unwrap();
+                    let (rs, re) = brange(r);
+                    edits.push(Edit { pos: rs, end: re, text: "self".into(), rule: "R12:mut-self".into(), kept: vec![], oline: 0, seq: 1 });
+                    let bo = block.brace_token.span.open().byte_range().start;
+                    edits.push(Edit { pos: bo + 1, end: bo + 1, text: " let mut this = self; ".into(), rule: "R12:mut-self".into(), kept: vec![], oline: 0, seq: 2 });
+                    let mut toks = vec![];
+                    self_tokens(quote::ToTokens::to_token_stream(&block), &mut toks);
+                    for e in edits.iter_mut() {
+                        if !e.rule.is_empty() && e.end > e.pos && e.pos > bo {
+                            e.text = replace_word(&e.text, "self", "this");
+                        }
+                    }
+                    let covered: Vec<(usize, usize)> = edits.iter().filter(|e| e.end > e.pos).map(|e| (e.pos, e.end)).collect();
+                    for (a, b) in toks {
+                        if covered.iter().any(|(x, y)| a >= *x && b <= *y) {
+                            continue;
+                        }
+                        edits.push(Edit { pos: a, end: b, text: "this".into(), rule: "R12:mut-self".into(), kept: vec![], oline: 0, seq: 3 });
+                    }
+                }
                 raw_ident_edits(quote::ToTokens::to_token_stream(&block), &rules, &mut edits, &mut seq);
                 raw_ident_edits(quote::ToTokens::to_token_stream(&sig), &rules, &mut edits, &mut seq);
                 attr_edits(&attrs, &rules, &sf.text, &mut edits, &mut seq);
@@ -1190,6 +1246,7 @@ fn main() {
                     let mk = |pos: usize, text: String, seq: usize| Edit { pos, end: pos, text, rule: String::new(), kept: vec![], oline: sec.line, seq };
                     match sec.kind.as_str() {
                         "sig" => edits.push(mk(body_open, format!("\n{}", sec.text), seq)),
+                        "attr" => edits.push(mk(fs, sec.text.clone(), 0)),
                         "entry" => edits.push(mk(body_open + 1, format!("\n{}", sec.text), seq + 500)),
                         "exit" => edits.push(mk(body_close, sec.text.clone(), seq)),
                         "before" | "after" => {
